@@ -135,10 +135,10 @@ CHECKS = {
             "limits in force = negotiated values; two refutations recorded as findings. Handshake model composed "
             "with the codec and sniffer models, tied to real combined/v3/v5 servers on ~5*10^3 cases.",
             "section 5, C19"),
-    "C18": ("Six Coq theorems (Props/C18.v) about an executable model of src/topic.rs, for all byte strings of any "
+    "C18": ("Ten Coq theorems (Props/C18.v) about an executable model of src/topic.rs, for all byte strings of any "
             "length: validator = section 4.7 validity, the two validators agree, matches_topic = the section 4.7 "
             "answer (independent spec), parse/display round trip, soundness of matches_filter as a covering "
-            "relation. Tied to the code by 4*10^5 exhaustive pairs per quick run through the extracted model and a "
+            "relation, which is a preorder and never lets a first-position wildcard cover a $-level. Tied to the code by 4*10^5 exhaustive pairs per quick run through the extracted model and a "
             "spec oracle.", "section 5, C18"),
 }
 
